@@ -40,9 +40,30 @@ func VH_C08_Continue() {
 	})
 	before := ogm.GetState()
 
+	// what arrives while the continue interval runs: nothing, a break level, a close, a release
+	cenv := verifrt.IntRange("cenv", 0, 3)
+	if te.options.GameContinueInterval == 0 {
+		cenv = 0 // no interval, nothing can arrive in it
+	}
+	te.tbForOpenGame.ModelDuringNextInterval(func() {
+		switch cenv {
+		case 1:
+			te.UpdateBlind(-1, 0, 0, 0, 0)
+		case 2:
+			te.CloseTable()
+		case 3:
+			te.ReleaseTable()
+		}
+	})
 	t0 := time.Now().Unix()
 	err := te.continueGame(alive)
 	t1 := time.Now().Unix()
+	if cenv >= 2 {
+		after := ogm.GetState()
+		verifrt.Assert(after.GameCount == before.GameCount && len(after.Participants) == len(before.Participants), "a table closed or released during the continue interval sets up no further hand")
+		verifrt.Reach("end")
+		return
+	}
 
 	verifrt.Assert(err == nil, "continueGame succeeds")
 	if mode != 0 && t0 > tableEnd {
